@@ -156,6 +156,7 @@ SPEC = {
         "group_of / lwt_sequence / the P_* predicates of Model/Plan.v are the plan order of the property text written over the C04 replica sets",
         "hook scylla::cluster::verif_node_flags (per-host is_enabled / is_connected override) on the pool-less nodes of the real ClusterState::new (scylla::cluster::verif_state::cluster_state_via_new, reject-all host filter); the policy is built by DefaultPolicyBuilder::build(); without a sharder every shard is 0",
         "hashbrown / itertools unique_by: an element is dropped iff an element kept earlier compares equal (the model's dedup)",
+        "the kind-L acceptor is the extracted two_reads_matches (C05_two_reads_accept_sound, C05_two_reads_accepted); when it refuses a plan the driver decides viol / diff by OCaml code (enabled when chosen, permitted, rest duplicate-free, unchanged head not repeated)",
     ],
     "assumptions": [
         "latency awareness is not modelled and never enabled",
